@@ -12,6 +12,7 @@ def hyps (req : Sexp) : Option Sexp :=
   | .list [.atom "rt", env, rt, val, .atom _] => some (Driver.rtHyps env rt val)
   | .list [.atom "prog", _, prog, _, .list vals] => some (Driver.progSpec prog vals)
   | .list [.atom "rewrite", _, p, _, _, q, _, .list script] => some (Driver.rewriteHyps p q script)
+  | .list [.atom "describe", _, prog, _, _] => some (Driver.describeHyps prog)
   | _ => none
 
 def handle (req : Sexp) : Sexp :=
@@ -22,6 +23,7 @@ def handle (req : Sexp) : Sexp :=
   | .list [.atom "rt", env, rt, val, .atom strict] => Driver.rtOp env rt val (strict == "true")
   | .list [.atom "prog", _, prog, _, .list vals] => Driver.progOp prog vals
   | .list [.atom "rewrite", _, p, _, .list vals, q, _, _] => Driver.rewriteOp p q vals
+  | .list [.atom "describe", _, prog, _, _] => Driver.describeOp prog
   | _ => .list [.atom "bad-op"]
 
 partial def loop (h : IO.FS.Stream) (out : IO.FS.Stream) : IO Unit := do
